@@ -9,7 +9,7 @@ from core.rng import SemanticRandom, installed
 class C20(Prop):
     pid = "C20"
     title = "DrawSet behaves as a set under any history"
-    rule = ("random operation sequences (add/remove/draw/contains/len/iter) over universes of 1-8 integer pairs, "
+    rule = ("random operation sequences (add/remove/draw/contains/len/iter) over universes of 1-8 integer pairs (every sixtieth case: a set of 258-300 members built first), "
             "plus every sequence of <= L add/remove operations over a 3-element universe (L=4 quick, 6 thorough); "
             "a case is non-trivial when it performs at least one removal of a present element that is not the last "
             "list slot (the swap-with-last path) or an absent removal; distinct = distinct operation sequence")
@@ -35,6 +35,11 @@ class C20(Prop):
             universe = uniq
         n = rng.randint(1, 80)
         ops = []
+        if i % 60 == 9:
+            # a large set: several hundred members before the mixed history starts
+            universe = [[a, 1000 + a] for a in range(rng.randint(258, 300))]
+            ops = [["add", e] for e in universe]
+            rng.shuffle(ops)
         for _ in range(n):
             r = rng.random()
             e = rng.choice(universe)
